@@ -142,7 +142,8 @@ class Gen:
         if r < 0.35:
             return str(self.rng.randint(0, 99))
         if r < 0.55:
-            w = self.rng.choice(['s', 'hello', 'a b', 'x\\"y', 'café', 'SELECT', '', 'a,b', '(p)', 'c\x01', 'd\x7f', 'e😀'])
+            w = self.rng.choice(['s', 'hello', 'a b', 'x\\"y', 'café', 'SELECT', '', 'a,b', '(p)', 'c\x01', 'd\x7f', 'e😀',
+                                 'he said \\"hi\\"', '\\"', '\\"lead', 'tail\\\\', 'a\\tb'])
             return '"' + w + '"'
         if r < 0.65:
             return self.rng.choice(["'c'", "'\\n'", "'\"'"])
@@ -579,6 +580,10 @@ class Gen:
         s = self.begin()
         vis, annots = self.modifiers()
         ret = rng.choice(['void', 'void'] + TYPES_PRIM + CLASSES + ['String', 'int[]', 'List<String>', 'java.util.Map<String, Foo>'])
+        if rng.random() < 0.18:
+            # a generic method: its type parameters stand between the modifiers and the return type
+            tp, ret = rng.choice([('<T>', 'T'), ('<K, V>', 'java.util.Map<K, V>'), ('<T extends Comparable<T>>', 'void'), ('<E>', 'List<E>'), ('<T>', 'T[]')])
+            e.w(tp); e.sp()
         name = rng.choice(METHODS)
         e.w(ret); e.sp(); e.w(name); e.tight(); e.w('(')
         np = rng.choice([0, 0, 1, 2, 3])
